@@ -472,6 +472,8 @@ def run(ctx):
                  'nor removed by _rearrange_commands (MistralError '
                  '"Unsupported workflow command")' % c.rsplit('.', 1)[1],
                  prog.loc(c))
+    shared.command_dispatch(ctx, r6)
+    shared.rearrange_tail(ctx, r6)
     try:
         eng = set(prog.const('mistral.lang.v2.workflows', 'ENGINE_COMMANDS'))
         table = prog.module_assigns[CMDS].get('ENGINE_CMD_CLS')
